@@ -517,7 +517,13 @@ pub fn overshoot() -> String {
     let mut samples = Vec::new();
     let mut max_seen = 0usize;
     mini_moka::verif::set_shard_amount(4);
-    for n in [63usize, 64, 65, 383, 384, 385, 449, 800, 2000] {
+    // (sizes around the library's own flush point and write-log size: 63, 64, 65, 383, 384,
+    // 385, 449 on the unchanged code)
+    let k = mini_moka::verif::constants();
+    let (fp, wl) = (k.write_log_flush_point, k.write_log_size);
+    let mut sizes = vec![fp - 1, fp, fp + 1, wl - 1, wl, wl + 1, wl + fp + 1, (wl + fp + 1).max(800), (wl + fp + 1).max(2000)];
+    sizes.dedup();
+    for n in sizes {
         for keys in [1usize, 2, usize::MAX] {
             for beyond in [true, false] {
                 for cap in [0u64, 1, 10] {
@@ -537,20 +543,23 @@ pub fn overshoot() -> String {
                             c.insert((i % keys.max(1)) as u32, i as u32);
                             // iterating every time would make the family quadratic; the bound
                             // can only be exceeded where the visible count peaks
-                            if i % 16 == 15 || i + 1 == n || (380..=400).contains(&i) {
+                            if i % 16 == 15 || i + 1 == n || (wl.saturating_sub(4)..=wl + 16).contains(&i) {
                                 worst = worst.max(c.iter().count());
                             }
                         }
                         c.sync();
                         c.sync();
-                        (worst, c.iter().count() as u64, c.entry_count())
+                        (worst, c.iter().count() as u64, c.entry_count(), c.verif_queue_caps().1)
                     }));
                     transitions += n as u64;
                     match r {
-                        Ok((worst, total, ec)) => {
+                        Ok((worst, total, ec, wcap)) => {
                             max_seen = max_seen.max(worst);
-                            if worst as u64 > cap + 384 + 1 && sigs.insert("overshoot".into()) {
-                                viols.push(Violation { prop: "C04", sig: "S:overshoot-beyond-write-queue".into(), detail: format!("{worst} entries visible with max_capacity {cap}: more than capacity + 384 queued writes + 1"), witness: w.clone() });
+                            // "overshoots by no more than its bounded write queue plus one
+                            // entry per inserting thread"
+                            let bound = wcap.map(|b| cap + b as u64 + 1);
+                            if bound.map(|b| worst as u64 > b).unwrap_or(true) && sigs.insert("overshoot".into()) {
+                                viols.push(Violation { prop: "C04", sig: "S:overshoot-beyond-write-queue".into(), detail: format!("{worst} entries visible with max_capacity {cap}: more than capacity + the capacity of the write log ({wcap:?}) + 1"), witness: w.clone() });
                             }
                             if total > cap && sigs.insert("after".into()) {
                                 viols.push(Violation { prop: "C04", sig: "S:resident-weight-above-capacity:after-burst".into(), detail: format!("after the burst and sync(): {total} unit-weight residents (entry_count {ec}) > max_capacity {cap}"), witness: w.clone() });
